@@ -33,7 +33,7 @@ MANIFEST = {
 
 def run(run_, ctx):
     run_groups(run_, ctx, [("S", "acc", None, "accumulator")])
-    run_.floor("S", 5)
+    run_.floor("S", 4)
     F = ctx.facts("A")
     A = accmod.Acc(F)
     site = A.feed_ref.where()
